@@ -4,6 +4,7 @@ import HdVerif.Proofs.SRDocument
 import HdVerif.Proofs.SRTree
 import HdVerif.Generated.T15c
 import HdVerif.Generated.T15k
+import HdVerif.Generated.T15l
 /-! # C15  SR documents carry their content intact with complete evidence
 
 Property theorems only.  The model is `Model/SREvidence.lean` (hand-written, tied to `/repo` by the
@@ -1221,6 +1222,74 @@ theorem readers_write_nothing_on_the_document :
     Gen.srReadersWrite.map Prod.fst = ["content", "get_evidence", "get_evidence_series"] ∧
     ∀ row ∈ Gen.srReadersWrite, row.2 = [] := by
   decide +kernel
+
+/-- **The key object selection document refuses by the source's guards** (bridge for the hand-written `buildKO`, T15l: the
+evidence guard and the single-study guard of `KeyObjectSelectionDocument.__init__` regenerated on every run; the call
+`collect_evidence(evidence, content[0])`, the reference table and `resolve_reference` checked textually).  A document the
+model builds passed both regenerated guards (its one study group is recorded), and the model refuses whenever the evidence
+guard refuses, or the evidence collection succeeds with several study groups — which the regenerated study guard refuses. -/
+theorem ko_guards_are_the_source_guards (refs : List Ref) (hasDesc : Bool) (evd : List Evd) :
+    (∀ d, buildKO refs hasDesc evd = .ok d →
+      Gen.koEvidenceGuard evd.length = .ok true ∧ Gen.koStudyGuard d.current.length ≠ .error .value ∧
+      ∃ oth, collectEvidence evd (koTree refs hasDesc) = .ok (d.current, oth)) ∧
+    (Gen.koEvidenceGuard evd.length ≠ .ok true → ∃ e, buildKO refs hasDesc evd = .error e) ∧
+    (∀ cur oth, refs ≠ [] → evd ≠ [] → collectEvidence evd (koTree refs hasDesc) = .ok (cur, oth) →
+      Gen.koStudyGuard cur.length = .error .value → buildKO refs hasDesc evd = .error .value) := by
+  have hev : ∀ l : List Evd, Gen.koEvidenceGuard l.length = .ok true ↔ l.isEmpty = false := by
+    intro l
+    unfold Gen.koEvidenceGuard
+    cases l with
+    | nil => simp
+    | cons x xs =>
+      have : ((xs.length : Int) + 1 == 0) = false := by
+        have : (xs.length : Int) + 1 ≠ 0 := by omega
+        simpa using this
+      simp [this]
+  have hst : ∀ n : Nat, Gen.koStudyGuard (n : Int) = .error .value ↔ n > 1 := by
+    intro n
+    unfold Gen.koStudyGuard
+    rcases n with _ | _ | n
+    · simp
+    · simp
+    · have h0 : ((n : Int) + 1 + 1 > 0) := by omega
+      have h1 : ((n : Int) + 1 + 1 > 1) := by omega
+      simp [h0, h1]
+  refine ⟨?_, ?_, ?_⟩
+  · intro d h
+    unfold buildKO at h
+    simp only [bind, Except.bind, pure, Except.pure, throw, throwThe, MonadExceptOf.throw] at h
+    split at h
+    · cases h
+    rename_i he
+    split at h
+    · cases h
+    split at h
+    · cases h
+    rename_i v hce
+    obtain ⟨cur, oth⟩ := v
+    simp only at h
+    split at h
+    · cases h
+    rename_i hlen
+    cases h
+    refine ⟨(hev evd).mpr (by simpa using he), ?_, oth, hce⟩
+    intro hc
+    exact hlen ((hst _).mp hc)
+  · intro h
+    have : evd.isEmpty = true := by
+      cases hh : evd.isEmpty with
+      | true => rfl
+      | false => exact absurd ((hev evd).mpr hh) h
+    unfold buildKO
+    simp only [this, bind, Except.bind, throw, throwThe, MonadExceptOf.throw]
+    exact ⟨_, rfl⟩
+  · intro cur oth hr he hce hg
+    have h1 : evd.isEmpty = false := by cases evd <;> simp_all
+    have h2 : refs.isEmpty = false := by cases refs <;> simp_all
+    unfold buildKO
+    simp only [h1, h2, hce, bind, Except.bind, pure, Except.pure, throw, throwThe, MonadExceptOf.throw, Bool.false_eq_true, if_false]
+    have := (hst cur.length).mp hg
+    simp [this]
 
 /-- non-vacuity: a three-level tree (container > container > NUM, IMAGE without concept name > TEXT) is accepted, the IMAGE
 gets the default name, everything else is unchanged; the document data set parses back to the same root; a NUM item without
